@@ -38,11 +38,14 @@ type Scenario struct {
 	// FlagHow: "set" SetFlags(f) | "addremove" AddFlags/RemoveFlags | "scope" inside a SaveFlagsAndMod scope whose
 	// outside has the opposite termination flags | "restored" after such a scope was closed again
 	FlagHow string `json:"flag_how,omitempty"`
+	// Dest: "" the harness's own unbuffered file writer (appends a record separator) | "filewriter" the package's
+	// slog.NewFileWriter on the same file (child processes only)
+	Dest string `json:"dest,omitempty"`
 }
 
 func (s Scenario) String() string {
-	return fmt.Sprintf("%s severity=%v logger-level=%v noInterrupt=%v interruptAlways=%v (flags via %q) format=%s production=%v msg=%q",
-		s.EP, slog.Level(s.R), slog.Level(s.L), s.NoInterrupt, s.InterruptAlways, s.FlagHow, s.Format, s.Prod, s.Msg)
+	return fmt.Sprintf("%s severity=%v logger-level=%v noInterrupt=%v interruptAlways=%v (flags via %q) destination=%q format=%s production=%v msg=%q",
+		s.EP, slog.Level(s.R), slog.Level(s.L), s.NoInterrupt, s.InterruptAlways, s.FlagHow, s.Dest, s.Format, s.Prod, s.Msg)
 }
 
 func epByName(name string) *vlib.EntryPoint {
@@ -164,7 +167,12 @@ func childMain(path string) {
 	if err != nil {
 		os.Exit(4)
 	}
-	lg := setup(s, sepWriter{f})
+	var dest io.Writer = sepWriter{f}
+	if s.Dest == "filewriter" {
+		_ = f.Close()
+		dest = slog.NewFileWriter(path + ".rec")
+	}
+	lg := setup(s, dest)
 	ep := epByName(s.EP)
 	res := childResult{Testing: !vlib.ProductionMode()}
 	func() {
@@ -281,6 +289,9 @@ func runChild(t vlib.TB, test string, s Scenario, dir string) {
 	}
 	admit, terminate := expect(s, s.Prod)
 	nrec := bytes.Count(rec, []byte(recSep)) // child messages never contain the separator
+	if s.Dest == "filewriter" && len(rec) > 0 {
+		nrec = bytes.Count(rec, []byte(s.Msg)) // no separator in this mode: every record carries the (unique) message once
+	}
 	judge(t, test, s, admit, terminate, bytes.TrimSuffix(rec, []byte(recSep)), nrec, status, haveRes, res, se.String())
 }
 
@@ -362,7 +373,7 @@ func levelsAll() []int {
 // values): "no other severity ever panics or exits". Only used in child processes - a wrongly
 // terminating severity would take the harness process down in-process.
 func severitiesForChildren() []int {
-	return append(levelsAll(), -4, -1, -1000, 12, 1 << 20)
+	return append(levelsAll(), -4, -1, -1000, 12, 1<<20)
 }
 
 func epNamesFor(r slog.Level) []string {
@@ -396,6 +407,7 @@ func TestChildSampled(t *testing.T) {
 		s.Prod = rapid.Bool().Draw(t, "production")
 		s.FlagHow = rapid.SampledFrom([]string{"set", "set", "addremove", "scope", "restored"}).Draw(t, "flagHow")
 		s.Msg = "c12 " + rapid.StringMatching(`[a-z]{1,8}( [a-z]{1,5}){0,2}`).Draw(t, "msg")
+		s.Dest = rapid.SampledFrom([]string{"", "", "filewriter"}).Draw(t, "destination")
 		runChild(t, "TestChildSampled", s, dir)
 	})
 }
@@ -425,7 +437,7 @@ func TestChildMatrix(t *testing.T) {
 								}
 								total++
 								runChild(t, "TestChildMatrix", Scenario{EP: ep, R: int(r), L: L, NoInterrupt: ni, InterruptAlways: ia,
-									Format: f, Prod: prod, Msg: fmt.Sprintf("matrix cell %d", idx)}, dir)
+									Format: f, Prod: prod, Msg: fmt.Sprintf("matrix cell %d", idx), Dest: []string{"", "filewriter"}[idx%2]}, dir)
 							}
 						}
 					}
